@@ -161,7 +161,8 @@ def symbolic_algebra(dim, nat):
     return fn
 
 
-QUICK = ['hcp', 'l12', 'rumpled', 'honeycomb', 'afm-square', 'afm-bcc', 'fm-hex', 'afm-hex', 'spinvec-sc', 'hcp-nosym', 'fcc-nosym', 'rect2', 'mono', 'nbo']
+QUICK = ['hcp', 'l12', 'rumpled', 'honeycomb', 'afm-square', 'afm-bcc', 'fm-hex', 'afm-hex', 'spinvec-sc', 'hcp-nosym', 'fcc-nosym', 'rect2', 'mono', 'nbo',
+         'ortho-ab-general', 'tetra-polar-abx2', 'rect-ab-general', 'ortho-abc-mirror', 'tric-abc']
 THOROUGH = QUICK + ['sc', 'fcc', 'bcc', 'diamond', 'b2', 'bccoct', 'hcpoct', 'square', 'tria', 'wurtzite', 'fcc111', 'hex1']
 
 
